@@ -435,6 +435,9 @@ func Run(sc *Scenario) *Result {
 	} else {
 		runAsync(sc, cfg, sim, msgs, res)
 	}
+	// let goroutines of the closed producer (bridge goroutines answering a last, empty set) finish emitting hook
+	// events into THIS scenario's trace before the next scenario installs its sink
+	time.Sleep(3 * time.Millisecond)
 	res.Batches, res.Requests = sim.Snapshot()
 	for p := int32(0); p < sc.Partitions; p++ {
 		res.Logs[p] = sim.Log("t", p)
